@@ -76,8 +76,73 @@ def extras():
     return [e for e in out if lang.well_typed(e)]
 
 
+def drivers():
+    """Programs outside L (Gaussian, Delta, Constant, Integrate) run under the monitor; returns [(name, thunk)]."""
+    import numpy as np
+    from collections import OrderedDict
+    import funsor
+    from funsor import ops
+    from funsor.constant import Constant
+    from funsor.delta import Delta
+    from funsor.domains import Bint, Real, Reals
+    from funsor.gaussian import Gaussian
+    from funsor.integrate import Integrate
+    from funsor.tensor import Tensor
+    from funsor.terms import Independent, Number, Variable
+
+    def A(lid, shape):
+        return lang.generic_fill(500 + lid, shape, 0)
+
+    def G(lid, inputs):
+        nb = [d.size for d in inputs.values() if d.dtype != "real"]
+        dim = sum(d.num_elements for d in inputs.values() if d.dtype == "real")
+        ps = A(lid, tuple(nb) + (dim, dim)) + 2.0 * np.eye(dim)
+        return Gaussian(A(lid + 1, tuple(nb) + (dim,)) - 1.0, ps, inputs)
+
+    ti = Tensor(A(1, (2,)), OrderedDict(i=Bint[2]))
+    tij = Tensor(A(2, (2, 3)), OrderedDict(i=Bint[2], j=Bint[3]))
+    tj = Tensor(A(3, (3,)), OrderedDict(j=Bint[3]))
+    x, y = Variable("x", Real), Variable("y", Reals[2])
+    g1 = lambda: G(10, OrderedDict(i=Bint[2], x=Real, y=Reals[2]))  # noqa
+    g2 = lambda: G(20, OrderedDict(x=Real, i=Bint[2]))  # noqa
+    g3 = lambda: G(30, OrderedDict(y=Reals[2], j=Bint[3], x=Real))  # noqa
+    dx = lambda: Delta("x", Tensor(A(40, (2,)), OrderedDict(i=Bint[2])), ti)  # noqa
+    dy = lambda: Delta("y", Tensor(A(41, (2,))), Number(0.5))  # noqa
+    db = lambda: Delta("b", Tensor(np.array([1, 0]), OrderedDict(i=Bint[2]), 2), Number(0.0))  # noqa
+    out = [
+        ("gauss+gauss", lambda: g1() + g2()),
+        ("gauss+gauss-disjoint", lambda: g2() + g3()),
+        ("gauss+gauss+tensor", lambda: g1() + g2() + ti),
+        ("gauss-gauss", lambda: g1() - g2()),
+        ("gauss-subs-int", lambda: g1()(i=1)),
+        ("gauss-subs-real", lambda: g1()(x=Tensor(A(50, ())))),
+        ("gauss-subs-var", lambda: g1()(x="z", i="k")),
+        ("delta+delta", lambda: dx() + dy()),
+        ("delta+tensor", lambda: dx() + tij),
+        ("tensor+delta", lambda: tij + dx()),
+        ("delta+lazy", lambda: dx() + (tj * x)),
+        ("lazy+delta", lambda: (ti * x * x) + dx()),
+        ("delta-bint+tensor", lambda: db() + Tensor(A(51, (2, 2)), OrderedDict(i=Bint[2], b=Bint[2]))),
+        ("delta-subs", lambda: dx()(x=Tensor(A(40, (2,)), OrderedDict(i=Bint[2])))),
+        ("delta-subs-miss", lambda: dy()(y=Tensor(A(52, (2,))))),
+        ("delta+gauss", lambda: dx() + g2()),
+        ("const+const", lambda: Constant(OrderedDict(c=Bint[2]), ti) + Constant(OrderedDict(d=Real), tj)),
+        ("const+tensor", lambda: Constant(OrderedDict(c=Bint[2]), ti) * tij),
+        ("tensor+const", lambda: tij - Constant(OrderedDict(d=Real), tj)),
+        ("const-reduce", lambda: Constant(OrderedDict(c=Bint[2], d=Bint[3]), ti).reduce(ops.add, "c")),
+        ("const-unary", lambda: Constant(OrderedDict(c=Bint[2]), ti).exp()),
+        ("const-subs", lambda: Constant(OrderedDict(c=Bint[2], d=Real), ti)(c=1)),
+        ("integrate-discrete", lambda: Integrate(tij.log(), tj * x, frozenset({Variable("j", Bint[3])}))),
+        ("integrate-discrete2", lambda: Integrate(tij.log(), ti + tj, frozenset({Variable("i", Bint[2]), Variable("j", Bint[3])}))),
+        ("exp-reduce", lambda: (tij.log() + x).exp().reduce(ops.add, "j")),
+        ("contraction-to-integrate", lambda: ((tij.log() + x).exp() * tj).reduce(ops.add, "j")),
+        ("independent-delta", lambda: Independent(Delta("x_i", Tensor(A(53, (2,)), OrderedDict(i=Bint[2])), Number(0.0)), "x", "i", "x_i")),
+    ]
+    return out
+
+
 def cases(tier):
-    return [["t", e] for e in extras()] + _corpus_cases(tier)
+    return [["t", e] for e in extras()] + [["g", i] for i in range(len(drivers()))] + _corpus_cases(tier)
 
 
 def _corpus_cases(tier):
@@ -90,6 +155,8 @@ def _corpus_cases(tier):
 
 
 def describe(case):
+    if case[0] == "g":
+        return "driver " + drivers()[case[1]][0]
     return lang.code(lang.tuplify(case[1]))
 
 
@@ -246,14 +313,42 @@ def _routes(e, seed):
     return (("eager", eager), ("lazy", lazy), ("normalize", normalize), ("sequential", sequential), ("optimizer", optimizer), ("reflect-inner", reflect_inner))
 
 
+def _driver_routes(i):
+    import funsor.interpretations as I
+    from funsor import interpreter
+
+    name, thunk = drivers()[i]
+
+    def eager():
+        thunk()
+
+    def lazy():
+        with I.lazy:
+            x = thunk()
+        interpreter.reinterpret(x)
+
+    def normalize():
+        with I.normalize:
+            x = thunk()
+        interpreter.reinterpret(x)
+
+    return (("eager", eager), ("lazy", lazy), ("normalize", normalize))
+
+
 def check(case, seed):
-    e = lang.tuplify(case[1])
-    key = repr(e)
+    if case[0] == "g":
+        e = ("N", 0.0, "real")
+        key = "driver:" + drivers()[case[1]][0]
+        routes = _driver_routes(case[1])
+    else:
+        e = lang.tuplify(case[1])
+        key = repr(e)
+        routes = None
     if _MON is None:
         worker_init()
     st = _STATE
     st.update(viol=None, counters={}, n=0, seed=seed, program=e)
-    for name, fn in _routes(e, seed):
+    for name, fn in routes or _routes(e, seed):
         try:
             with _MON:
                 fn()
@@ -265,8 +360,8 @@ def check(case, seed):
             f = _features(cls, args, what)
             f["interpretation"] = interp
             text = "rule %s (%s) fired on %s(%s)\n  -> %s\n  %s: %s\n  while running (route %s): %s" % (
-                rid, interp, term._name(cls), ", ".join(str(a)[:120] for a in args), str(result)[:300], what, msg, name, lang.code(e))
-            return core.violation(key, "rule:" + rid, text, ["t", e], f, lang.snippet(e, seed))
+                rid, interp, term._name(cls), ", ".join(str(a)[:120] for a in args), str(result)[:300], what, msg, name, key if case[0] == "g" else lang.code(e))
+            return core.violation(key, "rule:" + rid, text, list(case), f, "" if case[0] == "g" else lang.snippet(e, seed))
     if st["n"] == 0:
         return core.ok(key, False, "ok:no-new-firing", transitions=0, counters=st["counters"])
     return core.ok(key, True, "ok:firings", transitions=st["n"], counters=st["counters"])
